@@ -62,14 +62,6 @@ def unmarshalLines (x : List Byte) (r : Run) : List String :=
 def printEnv : PrintEnv :=
   { prim := findPrim, rc := rcFmt, rcRows := rcRows Generated.rcTables }
 
-/-- the event stream a consumer of `Binary.marshal` sees: in warn mode a final depleted/superfluous problem is
-itself a `WarningEvent` -/
-def streamOf (abort : Bool) (r : Run) : List Event :=
-  r.events.map (·.2) ++ (if abort then [] else match r.outcome with
-    | .depleted => [.warning .depleted]
-    | .superfluous _ _ => [.warning .depleted]
-    | _ => [])
-
 def rowStr : Row → String
   | .field t d n h v => s!"P {if t.isEmpty then "-" else t} {d} {n} {if h.isEmpty then "-" else hexOfBytes h} {v}"
   | .info k => s!"P! {k}"
